@@ -9,6 +9,8 @@ from ..lib import FAILED
 from ..runner import Sub
 
 ID = 'C10'
+TECHNIQUE = 'PBT + validity predicate (pairwise separation, ordering) + anchored loop bound + branch probe; atheris campaign in thorough'
+LEVEL_TEXT = 'Exploration: Separation/ordering on ~6.4k miss-ratio-like curves per quick run; 50% reach the multi-group branch (measured). Finds counter-examples (shrunk to a replay file); never proves absence.'
 RULE = ('Cases = (miss-ratio-like curve: strictly increasing non-negative integer x with steps 1..50, y in [0,1] '
         'from families monotone, noisy, 1-digit plateaus, all-ones, steps, clustered high-curvature points; n in '
         '4..60|400; dx, dy, dz in (0,1] incl. 1.0 and values with x_max*dx < 1; optional x_max / y_range '
